@@ -65,6 +65,9 @@ func runLinkedMapOrder[K comparable](c *core.Ctx, d *Dom[K]) {
 	cur := map[K]int{}
 	val := 0
 	_, floatKeys := any(*new(K)).(float64)
+	if _, ok := any(*new(K)).(SK); ok {
+		floatKeys = true // struct keys have no JSON object-key form either
+	}
 	check := func() {
 		if !c.Observe() {
 			return
@@ -390,6 +393,17 @@ func runC09(c *core.Ctx) {
 		}
 		return
 	}
+	if c.Index%23 == 7 {
+		// struct keys/members that carry Equal/Compare/Less/IsZero/Hash methods
+		// disagreeing with ==: the table and the order list must both go by ==
+		c.Count("linked:struct-cases", 1)
+		if c.Index%2 == 0 {
+			runLinkedMapOrder(c, StructDom(c.R.Range(4, 14)))
+		} else {
+			runLinkedSetOrder(c, StructDom(c.R.Range(4, 14)))
+		}
+		return
+	}
 	switch c.Index % 4 {
 	case 0:
 		runLinkedMapOrder(c, IntDom(c.R.Range(3, 12)))
@@ -414,6 +428,7 @@ func init() {
 		Floors: func(tier string, m map[string]int64) []string {
 			f := &floorCheck{m: m}
 			f.atLeast("obs:linked-order", 200000)
+			f.atLeast("linked:struct-cases", 500)
 			f.atLeast("linked:put-present", 10000)
 			f.atLeast("linked:remove-present", 10000)
 			f.atLeast("linked:reinsert", 5000)
